@@ -489,6 +489,14 @@ theorem step_no (s : St) (op : Op) (hi : Inv s) (hp : PB s) (hn : NO s) : NO (st
       repeat' split at hd
       all_goals first | (cases hd; exact no_defs s _ hn) | cases hd
     · exact hn
+  | deldef k sc =>
+    simp only [step]
+    split
+    · rename_i s' hd
+      unfold deleteDefinedName at hd
+      repeat' split at hd
+      all_goals first | (cases hd; exact no_defs s _ hn) | cases hd
+    · exact hn
   | setcell n v =>
     simp only [step]
     split
